@@ -4,7 +4,7 @@
    asking the harness over the pipe. *)
 From Coq Require Import List NArith ZArith Bool Ascii String.
 From Authlib Require Import Base.Bytes Base.Base64 Base.BigEndian Base.PyVal Base.Url Base.Percent Base.Utf8.
-From Authlib Require Import Model.JWK Model.Claims Spec.ClaimsSpec Model.Resource Model.Scope Model.ClientAuth Model.Metadata Spec.MetadataSpec.
+From Authlib Require Import Model.JWK Model.Claims Spec.ClaimsSpec Model.Resource Model.Scope Model.ClientAuth Model.Metadata Spec.MetadataSpec Model.Registration.
 Import ListNotations.
 Open Scope string_scope.
 
@@ -190,6 +190,30 @@ Definition dispatch_metadata (fn : string) (a : pv) : option pv :=
   else if String.eqb fn "op_spec" then Some (PList [PBool (doc_ok OIDC_RULES (dict_of_pv a)); PBool (doc_wf (dict_of_pv a))])
   else None.
 
+Definition opt_strs (v : pv) : option (list string) :=
+  match v with PList l => Some (map pv_str l) | _ => None end.
+Definition server_md_of (a : pv) : server_md :=
+  {| scopes_supported := opt_strs (arg "scopes_supported" a);
+     response_types_supported := opt_strs (arg "response_types_supported" a);
+     grant_types_supported := opt_strs (arg "grant_types_supported" a);
+     auth_methods_supported := opt_strs (arg "token_endpoint_auth_methods_supported" a) |}.
+Definition pv_of_rres (r : rres) : pv :=
+  match r with
+  | Stored m => PList [PStr "stored"; PDict m]
+  | Refused st e => PList [PStr "refused"; PInt (Z.of_N st); PStr e]
+  end.
+Definition dispatch_registration (fn : string) (a : pv) : option pv :=
+  if String.eqb fn "register" then
+    Some (pv_of_rres (register (arg_b "token_valid" a) (server_md_of (arg "server" a)) (arg_b "jwks_ok" a)
+                               (dict_of_pv (arg "payload" a))))
+  else if String.eqb fn "update" then
+    Some (pv_of_rres (update (arg_b "token_valid" a) (arg_b "client_exists" a) (arg_b "permitted" a)
+                             (arg_s "client_id" a) (arg_s "client_secret" a)
+                             (server_md_of (arg "server" a)) (arg_b "jwks_ok" a) (dict_of_pv (arg "payload" a))))
+  else if String.eqb fn "stored_ok" then
+    Some (PBool (stored_ok (server_md_of (arg "server" a)) (dict_of_pv (arg "metadata" a))))
+  else None.
+
 Definition dispatch (fn : string) (a : pv) : pv :=
   if String.eqb fn "oracle_echo" then oracle "echo" a else
   match dispatch_jwk fn a with
@@ -212,6 +236,9 @@ Definition dispatch (fn : string) (a : pv) : pv :=
   | None =>
   match dispatch_metadata fn a with
   | Some r => r
+  | None =>
+  match dispatch_registration fn a with
+  | Some r => r
   | None => err ("unknown function " ++ fn)
-  end end end end end end end.
+  end end end end end end end end.
 End D.
